@@ -2,3 +2,4 @@ import SedpackProps.C10
 import SedpackProps.C11
 import SedpackProps.C16
 import SedpackProps.C18
+import SedpackProps.C13
